@@ -161,3 +161,11 @@ LEMMAS['SUM/ext'] = dict(
     vars={'f': ('list', 'int'), 'g': ('list', 'int'), 'n': 'int'},
     hyps=['n >= 0', 'forall(j, 0, n, f[j] == g[j])'],
     induct=('m', '0', 'n', 'Sum(j, m, f[j]) == Sum(j, m, g[j])'))
+
+# ---- C05: in a list with non-decreasing ranks, "entries with rank <= aim" is a prefix
+LEMMAS['C05/prefix-filter'] = dict(
+    vars={'r': ('list', 'int'), 'x': ('list', 'int'), 'n': 'int', 'idx': 'int', 'aim': 'int'},
+    hyps=['0 <= idx', 'idx <= n',
+          'forall(a, 0, n, forall(b, a, n, r[a] <= r[b]))',
+          'forall(q, 0, idx, r[q] <= aim)', 'idx == n or r[idx] > aim'],
+    induct=('m', '0', 'n', 'Sum(q, m, ite(r[q] <= aim, x[q], 0)) == Sum(q, min(m, idx), x[q])'))
